@@ -47,6 +47,8 @@ impl std::ops::Deref for Missing {
 pub struct Rec {
     pub answers: Vec<(usize, bool)>,
     pub snaps: Vec<(u32, u32)>,
+    /// number of rules (a trigger shared through with_many takes its rule index from its position)
+    pub nrules: usize,
 }
 
 #[derive(Clone)]
@@ -74,7 +76,9 @@ impl Condition<TagP> for RecTrigger {
             (None, Some(b)) => b,
             (None, None) => choose(K_COND, 2) == 1,
         };
-        self.rec.lock().unwrap().answers.push((self.rule, r));
+        let mut g = self.rec.lock().unwrap();
+        let idx = if self.rule == usize::MAX { g.answers.len() % g.nrules.max(1) } else { self.rule };
+        g.answers.push((idx, r));
         Ok(r)
     }
 }
@@ -84,6 +88,9 @@ struct Bump;
 impl Component<TagP> for Bump {
     fn execute(&self, _p: &TagP, s: &mut State<TagP>) -> ExecResult<()> {
         *s.borrow_value_mut::<Ctr>() += 3;
+        let c = s.get_value::<Ctr>();
+        // a progress state that leaves [0, 1] (as LessThanN::evaluations does when a budget is overshot)
+        s.set_value::<mahf::state::common::Progress<ValueOf<Ctr>>>(c as f64 / 8.0 - 1.5);
         Ok(())
     }
 }
@@ -105,7 +112,8 @@ impl Component<TagP> for Snap {
 }
 
 /// (trigger kind, extractor kind): triggers 0 always, 1 never, 2 every second iteration, 3 scripted, 4 change of the logged state;
-/// extractors 0 present state (ValueOf), 1 missing state, 2 iteration counter, 3 the present state again (IdLens, same name)
+/// extractors 0 present state (ValueOf), 1 missing state, 2 iteration counter, 3 the present state again (IdLens, same name),
+/// 4 a Progress state whose value lies outside [0, 1]
 pub type Rule = (u8, u8);
 
 #[derive(Clone, Debug)]
@@ -113,6 +121,8 @@ pub struct LogCase {
     pub rules: Vec<Rule>,
     pub placement: u8, // 0 in loop body, 1 after the loop, 2 inside a scope in the loop, 3 twice in the loop body
     pub n: u32,
+    /// consecutive rules with the same trigger kind are registered through one with_many call
+    pub many: bool,
 }
 
 fn name_ctr() -> &'static str {
@@ -123,6 +133,9 @@ fn name_missing() -> &'static str {
 }
 fn name_it() -> &'static str {
     std::any::type_name::<Iterations>()
+}
+fn name_progress() -> &'static str {
+    std::any::type_name::<mahf::state::common::Progress<ValueOf<Ctr>>>()
 }
 
 type LogObs = (Result<Value, String>, Vec<(usize, bool)>, Vec<(u32, u32)>, Option<Value>, Option<Value>);
@@ -139,25 +152,52 @@ fn run_log_case(c: &LogCase, export: bool) -> LogObs {
         _ => b.while_(LessThanN::iterations(c.n), |b| b.do_(snap).do_(Logger::new()).do_(Box::new(Bump)).do_(snap2).do_(Logger::new())).build(),
     };
     let rules = c.rules.clone();
+    let many = c.many;
     let rec2 = rec.clone();
     let r = config.optimize_with(&TagP, move |st| {
         st.insert(crate::engine::tape::scripted_random(0));
         st.insert(Ctr(10));
+        st.insert(mahf::state::common::Progress::<ValueOf<Ctr>>::default());
+        st.set_value::<mahf::state::common::Progress<ValueOf<Ctr>>>(10.0 / 8.0 - 1.5);
+        rec2.lock().unwrap().nrules = rules.len();
         st.configure_log(|cfg| {
-            for (i, (t, e)) in rules.iter().enumerate() {
-                let trig: Box<dyn Condition<TagP>> = Box::new(match t {
-                    0 => RecTrigger { inner: Some(EveryN::iterations(1)), fixed: None, rule: i, rec: rec2.clone() },
-                    1 => RecTrigger { inner: None, fixed: Some(false), rule: i, rec: rec2.clone() },
-                    2 => RecTrigger { inner: Some(EveryN::iterations(2)), fixed: None, rule: i, rec: rec2.clone() },
-                    4 => RecTrigger { inner: Some(mahf::conditions::ChangeOf::new(mahf::conditions::common::PartialEqChecker::new::<u32>(), ValueOf::<Ctr>::new())), fixed: None, rule: i, rec: rec2.clone() },
-                    _ => RecTrigger { inner: None, fixed: None, rule: i, rec: rec2.clone() },
-                });
+            let mk_trig = |t: u8, rule: usize| -> Box<dyn Condition<TagP>> {
+                Box::new(match t {
+                    0 => RecTrigger { inner: Some(EveryN::iterations(1)), fixed: None, rule, rec: rec2.clone() },
+                    1 => RecTrigger { inner: None, fixed: Some(false), rule, rec: rec2.clone() },
+                    2 => RecTrigger { inner: Some(EveryN::iterations(2)), fixed: None, rule, rec: rec2.clone() },
+                    4 => RecTrigger { inner: Some(mahf::conditions::ChangeOf::new(mahf::conditions::common::PartialEqChecker::new::<u32>(), ValueOf::<Ctr>::new())), fixed: None, rule, rec: rec2.clone() },
+                    _ => RecTrigger { inner: None, fixed: None, rule, rec: rec2.clone() },
+                })
+            };
+            let mk_ext = |e: u8| -> Box<dyn mahf::logging::extractor::EntryExtractor<TagP>> {
                 match e {
-                    0 => cfg.with(trig, ValueOf::<Ctr>::entry()),
-                    1 => cfg.with(trig, ValueOf::<Missing>::entry()),
-                    2 => cfg.with(trig, ValueOf::<Iterations>::entry()),
-                    _ => cfg.with_auto::<Ctr>(trig),
-                };
+                    0 => ValueOf::<Ctr>::entry(),
+                    1 => ValueOf::<Missing>::entry(),
+                    2 => ValueOf::<Iterations>::entry(),
+                    3 => Box::<IdLens<Ctr>>::default(),
+                    _ => Box::<IdLens<mahf::state::common::Progress<ValueOf<Ctr>>>>::default(),
+                }
+            };
+            let mut i = 0;
+            while i < rules.len() {
+                let (t, e) = rules[i];
+                let mut j = i + 1;
+                if many {
+                    while j < rules.len() && rules[j].0 == t {
+                        j += 1;
+                    }
+                }
+                if j - i >= 2 {
+                    cfg.with_many(mk_trig(t, usize::MAX), (i..j).map(|k| mk_ext(rules[k].1)).collect::<Vec<_>>());
+                } else {
+                    match e {
+                        3 => cfg.with_auto::<Ctr>(mk_trig(t, i)),
+                        4 => cfg.with_auto::<mahf::state::common::Progress<ValueOf<Ctr>>>(mk_trig(t, i)),
+                        _ => cfg.with(mk_trig(t, i), mk_ext(e)),
+                    };
+                }
+                i = j;
             }
             Ok(())
         })
@@ -290,6 +330,7 @@ fn expected_log(c: &LogCase, answers: &[(usize, bool)], snaps: &[(u32, u32)]) ->
     let mut steps = vec![];
     for (e, chunk) in answers.chunks(r).enumerate() {
         if chunk.iter().enumerate().any(|(i, a)| a.0 != i) {
+            // (triggers shared through with_many number themselves by position: never out of order)
             return Err(format!("triggers evaluated out of rule order: {:?}", chunk));
         }
         let (ctr, it) = snaps[e];
@@ -301,7 +342,8 @@ fn expected_log(c: &LogCase, answers: &[(usize, bool)], snaps: &[(u32, u32)]) ->
             let (name, value) = match c.rules[i].1 {
                 0 | 3 => (name_ctr().to_string(), json!(ctr)),
                 1 => (name_missing().to_string(), Value::Null),
-                _ => (name_it().to_string(), json!(it)),
+                2 => (name_it().to_string(), json!(it)),
+                _ => (name_progress().to_string(), json!(ctr as f64 / 8.0 - 1.5)),
             };
             if !step.iter().any(|s| s.0 == name) {
                 step.push((name, value));
@@ -321,7 +363,7 @@ fn expected_log(c: &LogCase, answers: &[(usize, bool)], snaps: &[(u32, u32)]) ->
 fn check_log_case(c: &LogCase, out: &Outcome<LogObs>) -> Option<(String, String)> {
     let pl = ["in-loop-body", "after-loop", "in-scope-in-loop", "twice-in-loop-body"][c.placement as usize];
     let head = format!("C15 log placement={}", pl);
-    let ctx = |w: String| format!("rules (trigger, extractor) {:?}, logger {}, {} iterations: {}", c.rules, pl, c.n, w);
+    let ctx = |w: String| format!("rules (trigger, extractor) {:?}{}, logger {}, {} iterations: {}", c.rules, if c.many { " (equal consecutive triggers registered through with_many)" } else { "" }, pl, c.n, w);
     let (log, answers, snaps, ej, ec) = match out {
         Outcome::Done(o) => o,
         Outcome::Panic(m) => return Some((format!("{} panic", head), ctx(format!("panicked: {}", m.chars().take(200).collect::<String>())))),
@@ -376,6 +418,9 @@ fn check_log_case(c: &LogCase, out: &Outcome<LogObs>) -> Option<(String, String)
 
 pub fn log_cases(thorough: bool) -> Vec<LogCase> {
     let mut all_rules: Vec<Rule> = (0..4u8).flat_map(|t| (0..4u8).map(move |e| (t, e))).collect();
+    // a state whose serialised value leaves [0, 1]
+    all_rules.push((0, 4));
+    all_rules.push((3, 4));
     // a stateful trigger (change of the logged state) that only works if the logger initialises its triggers
     all_rules.push((4, 0));
     all_rules.push((4, 2));
@@ -393,7 +438,10 @@ pub fn log_cases(thorough: bool) -> Vec<LogCase> {
                 if rules.len() == 3 && (n == 1 || placement == 3) {
                     continue;
                 }
-                out.push(LogCase { rules: rules.clone(), placement, n });
+                out.push(LogCase { rules: rules.clone(), placement, n, many: false });
+                if rules.windows(2).any(|w| w[0].0 == w[1].0) && n >= 1 {
+                    out.push(LogCase { rules: rules.clone(), placement, n, many: true });
+                }
             }
         }
     }
@@ -503,7 +551,7 @@ pub fn run(rep: &mut Report) {
                         check_log_case(c, out)
                     };
                     if let Some((s, d)) = res {
-                        sub.violate(s, d, json!({"kind": "log", "rules": c.rules, "placement": c.placement, "n": c.n, "tape": prefix}));
+                        sub.violate(s, d, json!({"kind": "log", "rules": c.rules, "placement": c.placement, "n": c.n, "many": c.many, "tape": prefix}));
                     }
                 });
                 sub.states += 1;
@@ -656,7 +704,7 @@ pub fn replay(case: &Value) -> Result<Vec<(String, String)>, String> {
     match case["kind"].as_str().unwrap_or("") {
         "log" => {
             let rules: Vec<Rule> = case["rules"].as_array().ok_or("no rules")?.iter().map(|r| (r[0].as_u64().unwrap() as u8, r[1].as_u64().unwrap() as u8)).collect();
-            let c = LogCase { rules, placement: case["placement"].as_u64().unwrap_or(0) as u8, n: case["n"].as_u64().unwrap_or(0) as u32 };
+            let c = LogCase { rules, placement: case["placement"].as_u64().unwrap_or(0) as u8, n: case["n"].as_u64().unwrap_or(0) as u32, many: case["many"].as_bool().unwrap_or(false) };
             let tape: Vec<u32> = case["tape"].as_array().ok_or("no tape")?.iter().map(|x| x.as_u64().unwrap() as u32).collect();
             let (o, _) = tape::run_once(&log_cfg(), &tape, || run_log_case(&c, true));
             Ok(check_log_case(&c, &o).into_iter().collect())
